@@ -36,7 +36,7 @@ SHARED_FUNCS = {"cook", "cook_check", "load", "_load", "build", "get",
                 "read", "mtime", "resolve_dotted"}
 
 _state = {"sched": None, "coarse": False, "installed": False,
-          "lines": 0, "starts": 0, "focus": False}
+          "lines": 0, "starts": 0, "focus": False, "intr": None}
 # source lines that read or write state shared between threads
 ACCESS_RE = re.compile(
     r"self\._cooked|_v_last_read|setattr\(self|self\.__dict__|"
@@ -102,7 +102,51 @@ def _on_start(code, offset):
     return mon.DISABLE
 
 
+class Interrupt:
+    """An asynchronous exception (Ctrl-C, a failed allocation, a worker
+    being cancelled) delivered to one thread at its n-th LINE event inside
+    chameleon's shared-state modules / generated code.  Raised from the
+    monitoring callback, it surfaces in the monitored frame exactly as if
+    the interpreter had raised it between two lines."""
+
+    def __init__(self, nth: int, make, thread_ident=None,
+                 distinct: bool = False, access: bool = False) -> None:
+        import threading
+        self.nth = nth
+        self.make = make
+        # distinct: count only the first execution of each source line, so
+        # that a line which runs once (the store of a flag) is hit as often
+        # as one inside a loop
+        self.seen = set() if distinct else None
+        # access: count only lines that read or write state shared between
+        # uses of a template / loader (the flag, the recorded mtime, the
+        # installed functions, the registry ...)
+        self.access = access
+        self.thread = thread_ident or threading.get_ident()
+        self.count = 0
+        self.fired = None       # (file, function, line) once delivered
+
+
+def arm_interrupt(it: "Interrupt | None") -> None:
+    _state["intr"] = it
+
+
 def _on_line(code, line):
+    it = _state["intr"]
+    if it is not None and code.co_name != "__del__":
+        import threading
+        if threading.get_ident() == it.thread and (
+                it.seen is None or (code, line) not in it.seen) and (
+                not it.access or (classify(code) == "fine" and
+                                  is_access(code, line))):
+            if it.seen is not None:
+                it.seen.add((code, line))
+            it.count += 1
+            if it.count == it.nth:
+                _state["intr"] = None
+                it.fired = (os.path.basename(code.co_filename),
+                            code.co_name, line)
+                raise it.make()
     sched = _state["sched"]
     if sched is None or not sched.active:
         return None
